@@ -16,6 +16,8 @@
 From Coq Require Import DecimalString DecimalNat.
 From CfdmV Require Import Common.Base.
 Open Scope string_scope.
+Open Scope list_scope.
+Infix "+++" := String.append (at level 60, right associativity).
 
 (* ------------------------------------------------------------------ names *)
 Definition nat_str (n : nat) : string := NilEmpty.string_of_uint (Nat.to_uint n).
@@ -32,7 +34,7 @@ Fixpoint despace (s : string) : string :=
 (* NetCDFWrite._netcdf_name without dimsize/role: `base' if unused, else base_1, base_2, ...
    (the stored counter is never advanced by the code, so the search always starts at 1). *)
 Fixpoint first_free (base : string) (used : list string) (k fuel : nat) : string :=
-  let cand := base ++ "_" ++ nat_str k in
+  let cand := base +++ "_" +++ nat_str k in
   match fuel with
   | O => cand
   | S f => if mem cand used then first_free base used (S k) f else cand
@@ -51,7 +53,7 @@ Fixpoint split_acc (s : string) (cur : string) : list string :=
   | String c r =>
     if Ascii.eqb c " "%char
     then match cur with EmptyString => split_acc r EmptyString | _ => cur :: split_acc r EmptyString end
-    else split_acc r (cur ++ String c EmptyString)
+    else split_acc r (cur +++ String c EmptyString)
   end.
 Definition split_ws (s : string) : list string := split_acc s EmptyString.
 
@@ -193,10 +195,10 @@ Definition write_bounds (b : option bnds) (cdims : list string) (cvar : string) 
   match b with
   | None => ([], w)
   | Some b =>
-    let '(bdim, fresh, w1) := alloc_role_dim true (opt_or (b_ncdim b) ("bounds" ++ z_str (b_n b))) (b_n b) w in
+    let '(bdim, fresh, w1) := alloc_role_dim true (opt_or (b_ncdim b) ("bounds" +++ z_str (b_n b))) (b_n b) w in
     let newdim := negb (mem bdim (map fst (w_dims w1))) in
     let w2 := if newdim then add_dim bdim (b_n b) false w1 else w1 in
-    let default := if newdim then cvar ++ "_bounds" else "bounds" in
+    let default := if newdim then cvar +++ "_bounds" else "bounds" in
     let '(bvar, w3) := alloc (opt_or (b_ncvar b) default) w2 in
     ([("bounds", bvar)], add_var {| v_name := bvar; v_dims := cdims ++ [bdim]; v_attrs := [] |} w3)
   end.
@@ -206,7 +208,7 @@ Definition with_strlen (sl : option Z) (dims : list string) (w : wstate) : list 
   match sl with
   | None => (dims, w)
   | Some n =>
-    let '(sdim, fresh, w1) := alloc_role_dim false ("strlen" ++ z_str n) n w in
+    let '(sdim, fresh, w1) := alloc_role_dim false ("strlen" +++ z_str n) n w in
     let w2 := if mem sdim (map fst (w_dims w1)) then w1 else add_dim sdim n false w1 in
     (dims ++ [sdim], w2)
   end.
@@ -263,7 +265,7 @@ Definition write_plain (default : string) (wl : wstate * list string) (c : con) 
   let dims := dims_of w (c_axes c) in
   let '(ncvar, w1) := alloc (base_name (c_ncvar c) (c_std c) default) w in
   (add_var {| v_name := ncvar; v_dims := dims; v_attrs := [] |} w1,
-   l ++ [match c_type c with CMeasure => c_measure c ++ ": " ++ ncvar | _ => ncvar end]).
+   l ++ [match c_type c with CMeasure => c_measure c +++ ": " +++ ncvar | _ => ncvar end]).
 
 Definition is_type (t : ctype) (c : con) : bool :=
   match t, c_type c with
@@ -283,7 +285,7 @@ Definition cm_axis (w : wstate) (a : nat) : string :=
   end.
 
 Definition cm_string (w : wstate) (m : cellmethod) : string :=
-  String.concat "" (map (fun a => cm_axis w a ++ ": ") (m_axes m)) ++ m_method m.
+  String.concat "" (map (fun a => cm_axis w a +++ ": ") (m_axes m)) +++ m_method m.
 
 Definition opt_attr (k : string) (l : list string) : list (string * string) :=
   match l with [] => [] | _ => [(k, join_sp l)] end.
@@ -379,15 +381,15 @@ Definition read_var (d : ads) (v : var) : rskel :=
                    | [] => (* scalar coordinate variable: numeric -> dimension coordinate on a new axis;
                               char (one non-data dimension) -> auxiliary coordinate on a new axis *)
                            match v_dims c with
-                           | [] => [mk_rcon CDim d c ["@" ++ n] ""]
-                           | _ => [mk_rcon CAux d c ["@" ++ n] ""]
+                           | [] => [mk_rcon CDim d c ["@" +++ n] ""]
+                           | _ => [mk_rcon CAux d c ["@" +++ n] ""]
                            end
                    | axes => [mk_rcon CAux d c axes ""]
                    end
        end) coords in
   let scalar_axes := flat_map (fun n =>
        match find_var n d with
-       | Some c => match sub_dims (v_dims c) dd with [] => [("@" ++ n, (1%Z, false))] | _ => [] end
+       | Some c => match sub_dims (v_dims c) dd with [] => [("@" +++ n, (1%Z, false))] | _ => [] end
        | None => [] end) coords in
   let measures := flat_map (fun mn => match find_var (snd mn) d with
                                       | Some c => [mk_rcon CMeasure d c (sub_dims (v_dims c) dd) (strip_colon (fst mn))]
@@ -413,7 +415,7 @@ Fixpoint parse_cms (toks : list string) (cur : list string) : list (list string 
   end.
 
 Definition cm_label (r : rskel) (n : string) : string :=
-  if mem ("@" ++ n) (map fst (rs_axes r)) then "@" ++ n else n.
+  if mem ("@" +++ n) (map fst (rs_axes r)) then "@" +++ n else n.
 
 Definition read_skel (d : ads) : list rskel :=
   map (fun v =>
